@@ -61,6 +61,11 @@ func c18Methods() []c18Method {
 		{"get-pegnet-rates@next+1", func(w *c18World) interface{} { return map[string]interface{}{"height": w.h0 + 2} }, "get-pegnet-rates"},
 		{"get-transactions@height=next", func(w *c18World) interface{} { return map[string]interface{}{"height": w.h0 + 1} }, "get-transactions"},
 		{"get-graded@next", func(w *c18World) interface{} { return map[string]interface{}{"height": w.h0 + 1} }, "get-graded"},
+		// parameters in a spelling the chain does not accept (the second block S applies holds a signed entry spelled the same way)
+		{"get-rich-list@asset=pusd", func(w *c18World) interface{} { return map[string]interface{}{"asset": "pusd", "count": 5} }, "get-rich-list"},
+		{"get-transactions@asset=PUSD", func(w *c18World) interface{} {
+			return map[string]interface{}{"address": AddrA.String(), "asset": "PUSD"}
+		}, "get-transactions"},
 	}
 }
 
@@ -101,7 +106,13 @@ func newC18World() *c18World {
 	b.Add(drive.BlockSpec{Rates: R2(), OPRPayTo: kit.AddrStr(KM), TX: []fake.Entry{
 		b.Tx(KA, kit.Conversion(AddrA, "pUSD", 7e8, "pEUR"), kit.Transfer(AddrA, "pUSD", 3e8, AddrB)),
 		b.Tx(KA, kit.Conversion(AddrA, "pEUR", 5e8, "pUSD"))}})
-	b.Add(drive.BlockSpec{Rates: R1(), OPRPayTo: kit.AddrStr(KM)})
+	// the last block holds two well-signed entries that are NOT batches (ticker spellings the parser rejects): whatever a
+	// request does to state shared with the parser must not make them executable
+	odd := func(ticker string) fake.Entry {
+		content := strings.Replace(string(kit.BatchJSON(kit.Transfer(AddrA, "pUSD", 40e8, AddrB))), `"pUSD"`, `"`+ticker+`"`, 1)
+		return kit.SignContent(drive.IDs.TX, []byte(content), b.Salt(), kit.Key(KA))
+	}
+	b.Add(drive.BlockSpec{Rates: R1(), OPRPayTo: kit.AddrStr(KM), TX: []fake.Entry{odd("pusd"), odd("PUSD")}})
 	w.tip = b.Chain.Tip()
 	// uninterrupted run without API threads: start state (db + cache) and per-height copies
 	d, err := drive.Open(w.dir+"/main/db", fake.NewNode(b.Chain), nil, false)
@@ -276,7 +287,7 @@ func (w *c18World) execute(methods []c18Method, prefix []int, allVisible bool) *
 			ret := s.Now()
 			mu.Lock()
 			ex.events = append(ex.events, c18Event{client: i + 1, input: "read " + m.name, output: resp, call: call, ret: ret})
-			if strings.HasPrefix(resp, "PANIC") {
+			if strings.HasPrefix(resp, "PANIC") || (strings.HasPrefix(resp, "ERR: handler ") && strings.Contains(resp, " panicked: ")) {
 				ex.apiDied = m.name + ": " + resp
 			}
 			mu.Unlock()
